@@ -54,6 +54,7 @@ type Config struct {
 	Roots     []RootSpec `json:"roots"`
 	NondetCommit bool    `json:"nondet_commit,omitempty"`
 	Workers   int        `json:"workers,omitempty"`
+	AllowF4   bool       `json:"allow_known_f4,omitempty"` // replay of known finding F4 only: do not exclude it by construction
 	KeepGlobals bool     `json:"-"` // C16: globals were set once before the goroutines started
 }
 
@@ -113,6 +114,7 @@ type Engine struct {
 	Stats *CaseStats
 
 	nextNode   int
+	plainMaps  int // nested plain maps created so far (see excludeF4)
 	step       int
 	curOp      *Op
 	commitLog  int                      // len(L.Log) right after the last commit
@@ -572,6 +574,14 @@ func (e *Engine) mk(vd *VD, addr atree.Address, limit uint32, depth int) (atree.
 		e.Stats.label("nested_container_created")
 		return a, n, nil
 	case "map", "cmap":
+		if vd.K == "map" && e.excludeF4() {
+			// known finding F4 (DESIGN.md 6): >255 inlined containers with distinct extra data in one
+			// slab make the slab unencodable.  Excluded by construction: an array takes the map's place.
+			c := *vd
+			c.K = "arr"
+			e.Stats.Add("excluded_known_F4", 1)
+			return e.mk(&c, addr, limit, depth)
+		}
 		n := &Node{ID: e.nextNode, Addr: addr, IsMap: true, TI: TI{N: vd.N % 5, Comp: vd.K == "cmap"}, Ents: map[string]*Ent{}, Ins: map[string]int{}}
 		e.nextNode++
 		m, err := atree.NewMap(e.St, addr, atree.NewDefaultDigesterBuilder(), n.TI)
@@ -621,6 +631,16 @@ func (e *Engine) mk(vd *VD, addr atree.Address, limit uint32, depth int) (atree.
 		return m, n, nil
 	}
 	return nil, nil, fmt.Errorf("verif: bad value kind %q", vd.K)
+}
+
+// excludeF4 reports whether creating one more nested plain map could reach known finding F4:
+// only slabs of at least 3784 bytes can hold 257 inlined maps (22 bytes each at least).
+func (e *Engine) excludeF4() bool {
+	if e.Cfg.AllowF4 || e.Cfg.Slab < 3700 {
+		return false
+	}
+	e.plainMaps++
+	return e.plainMaps > 200
 }
 
 // elemVD derives the i-th element recipe of a container being built.
